@@ -210,6 +210,20 @@ func factsSexpr(tm *t.Map, facts []*a.Expr) string {
 	return fmt.Sprint(len(out)) + " " + strings.Join(out, " ")
 }
 
+// condSexpr serialises an assert condition: like a fact, a constant-valued
+// comparison keeps its operands.
+func condSexpr(tm *t.Map, c *a.Expr) (string, bool) {
+	if c.ConstValue() != nil {
+		if nm, ok := binOpNames[c.Operator()]; ok {
+			l, r := c.LHS().AsExpr(), c.RHS().AsExpr()
+			if l != nil && r != nil && l.ConstValue() != nil && r.ConstValue() != nil {
+				return "b " + nm + " c " + l.ConstValue().String() + " c " + r.ConstValue().String(), true
+			}
+		}
+	}
+	return exprSexpr(tm, c, nil)
+}
+
 func boundsStr(b [2]*big.Int) string {
 	if b[0] == nil || b[1] == nil {
 		return "nil"
@@ -316,6 +330,20 @@ func corrOps(ck *Checked, in *Interp, res *ProgResult) (ops []opLine) {
 					after, haveAfter = in.factsEnd[first]
 				}
 				emitStmt(line, n, after, haveAfter)
+			case a.KAssert:
+				// prove <n> <fact>*n <cond> -> ok : an accepted plain `assert` (no `via`)
+				n := o.AsAssert()
+				if n.Keyword() != t.IDAssert || n.Reason() != 0 {
+					break
+				}
+				if before, ok := in.factsBefore[line]; ok {
+					if cs, ok := condSexpr(tm, n.Condition()); ok {
+						res.Stats["corr:prove-ops"]++
+						ops = append(ops, opLine{"prove " + factsSexpr(tm, before) + " " + cs, "ok"})
+					} else {
+						res.Stats["corr:assert-outside-fragment"]++
+					}
+				}
 			case a.KIf:
 				n := o.AsIf()
 				emitExpr(line, n.Condition())
